@@ -268,7 +268,8 @@ def run_translation(case):
     try:
         root = sc.root
         q = queue.Queue()
-        watch = ObservedWatch(root, recursive=rec)
+        as_bytes = bool(case.get("bytes")) and emitter == "fsevents"
+        watch = ObservedWatch(os.fsencode(root) if as_bytes else root, recursive=rec)
         if emitter == "windows":
             w, r = shims.load_winapi()
             em = r.WindowsApiEmitter(q, watch)
@@ -279,6 +280,8 @@ def run_translation(case):
         replay = {p: v[0] for p, v in sc.model.tree.items()}
 
         def norm(p):
+            if isinstance(p, bytes):
+                p = os.fsdecode(p)
             if p == root:
                 return ""
             return p[len(root) + 1 :] if p.startswith(root + "/") else None
@@ -329,6 +332,14 @@ def run_translation(case):
                 delivered_batches.append((b, got))
             delivered = [e for _, g in delivered_batches for e in g]
             desc = f"{emitter} emitter recursive={rec}, burst {bi} {burst}"
+            for e in delivered:
+                for p in (e.src_path, e.dest_path):
+                    if p not in ("", b"") and isinstance(p, bytes) != as_bytes:
+                        raise Violation(f"{desc}: {e!r} carries a {'bytes' if isinstance(p, bytes) else 'str'} path although the watch path is {'bytes' if as_bytes else 'str'}", "path-type")
+            if as_bytes:
+                info_cl.add("bytes-root")
+                # the clauses below compare str paths
+                delivered = [type(e)(os.fsdecode(e.src_path), os.fsdecode(e.dest_path) if e.dest_path else "", is_synthetic=e.is_synthetic) if isinstance(e, wev.FileSystemMovedEvent) else type(e)(os.fsdecode(e.src_path), is_synthetic=e.is_synthetic) for e in delivered]
             # (1) replay
             fsops.replay_events(replay, delivered, norm)
             real = fsops.disk_tree(root, recursive=rec)
@@ -485,6 +496,7 @@ def trans_cases(draw, tier):
     h = draw(fsops.histories(opts))
     case = {"emitter": emitter, "recursive": draw(st.sampled_from([True, True, False])), "init": h["init"], "bursts": h["bursts"]}
     if emitter == "fsevents":
+        case["bytes"] = draw(st.sampled_from([False, False, True]))
         case["coalesce"] = draw(st.booleans())
         case["cuts"] = draw(st.lists(st.integers(1, 4), max_size=4))
     return case
